@@ -1,4 +1,4 @@
-"""F18/F19 with real processes and sockets:  python run.py <idle_after_create|setup_done|step|get_data>
+"""F18/F19 with real processes and sockets:  python run.py <idle_after_create|setup_done|step|get_data|async_outstanding>
 
 Before the repairs: 'idle_after_create' made run() hang (F19) and, once interrupted,
 shutdown() raised ConnectionResetError/BrokenPipeError and left the loop open (F18).
@@ -25,10 +25,48 @@ def alarm(*a):
 
 signal.signal(signal.SIGALRM, alarm)
 signal.alarm(30)
-w = mosaik.World({"S": {"cmd": f"%(python)s {HERE}/dying_sim.py %(addr)s"}}, skip_greetings=True)
-a = w.start("S", sim_id="A", die=die).M()
-b = w.start("S", sim_id="B").M()
-w.connect(a, b, "a")
+FINALIZED = []
+if die == "async_outstanding":
+    # F25: Dep (in-process, slow get_data) --async_requests--> A (sub-process, dies while its
+    # get_data request to mosaik is outstanding); Obs is started last and must be finalized
+    import asyncio
+    import mosaik_api_v3
+
+    class Dep(mosaik_api_v3.Simulator):
+        def __init__(self):
+            super().__init__({"type": "time-based", "models": {
+                "M": {"public": True, "params": [], "attrs": ["a", "b"]}}})
+
+        def init(self, sid, time_resolution=1.0, **kw):
+            self.sid = sid
+            return self.meta
+
+        def create(self, num, model):
+            return [{"eid": "e", "type": model}]
+
+        def step(self, t, inputs, max_advance):
+            return t + 1
+
+        def get_data(self, outputs):
+            if "b" in outputs.get("e", []):
+                yield asyncio.sleep(0.3)
+            return {"e": {k: 1 for k in outputs.get("e", [])}}
+
+        def finalize(self):
+            FINALIZED.append(self.sid)
+
+    sys.modules["realproc_run"] = sys.modules[__name__]
+    w = mosaik.World({"S": {"cmd": f"%(python)s {HERE}/dying_sim.py %(addr)s"},
+                      "L": {"python": "realproc_run:Dep"}}, skip_greetings=True)
+    dep = w.start("L", sim_id="Dep").M()
+    a = w.start("S", sim_id="A", die=die).M()
+    obs = w.start("L", sim_id="Obs").M()
+    w.connect(dep, a, "a", async_requests=True)
+else:
+    w = mosaik.World({"S": {"cmd": f"%(python)s {HERE}/dying_sim.py %(addr)s"}}, skip_greetings=True)
+    a = w.start("S", sim_id="A", die=die).M()
+    b = w.start("S", sim_id="B").M()
+    w.connect(a, b, "a")
 time.sleep(0.3)
 t0 = time.time()
 err = None
@@ -38,4 +76,8 @@ except BaseException as e:  # noqa: BLE001
     err = e
 print(f"run() -> {type(err).__name__ if err else 'returned'}: {str(err)[:90] if err else ''}; "
       f"{time.time() - t0:.2f}s; hang={state['hang']}; loop closed={w.loop.is_closed()}")
+if die == "async_outstanding":
+    print(f"finalized: {FINALIZED}")
+    if "Obs" not in FINALIZED:
+        sys.exit(1)
 sys.exit(0 if (err is not None and not state["hang"] and w.loop.is_closed()) else 1)
